@@ -32,7 +32,8 @@ SHAPES = {1: [(3,), (1,)], 2: [(2, 3), (1, 2)], 3: [(2, 1, 2), (2, 2, 2)]}
 
 
 def bounds(tier):
-    return {"program_length": 3 if tier == "quick" else 4, "alphabet": ALPHABET, "bc_setups": ["noflux", "robin", "periodic+dirichlet"]}
+    return {"program_length": 3 if tier == "quick" else 4, "alphabet": ALPHABET, "bc_setups": ["noflux", "robin", "periodic+dirichlet"],
+            "solve_sequences": {"length": 3, "systems": SYSTEMS}, "ghost_row_grids": U.grid_bounds(tier)}
 
 
 def cases(tier):
